@@ -382,8 +382,13 @@ int main(int argc, char *argv[])
 		pid = fork();
 		if (pid == 0) {
 			alarm(20);
+			/* the dumps keep the real stdout; whatever the editor prints through stdio
+			 * (ex_show / ex_print outside visual mode) goes nowhere */
+			dumpf = fdopen(dup(1), "w");
+			if (!freopen("/dev/null", "w", stdout))
+				_exit(3);
 			run_case(line);
-			fflush(stdout);
+			fflush(dumpf);
 			_exit(0);
 		}
 		waitpid(pid, &status, 0);
